@@ -302,7 +302,7 @@ CLAIMED['C05'] = dict(
          'an arbitrary element, must consume exactly those, append exactly one element, and that element must equal the original.',
     note='Field types enter through their S2/S3 contracts (C02/C03) and the C04 inverse contracts, not their bodies; the '
          'byte-level units unroll lists for lengths 0..2, the any-length units carry the induction; list counts < 2^31; NBT opaque; floats as reals with '
-         'wire-representable Angle/FixedPoint/Pitch values; map offsets 0..127; SpawnObjectPacket.__repr__ only in the bounded '
+         'wire-representable Angle/FixedPoint/Pitch values; SpawnObjectPacket.__repr__ only in the bounded '
          'part (its enum lookup formats the concrete protocol number); name_from_value/nbt_to_snbt through contracts. Bounded: '
          'byte-level round trips on the real code for a sixth of the supported versions (all in the thorough tier), generated '
          'definitions incl. nested arrays.',
